@@ -12,6 +12,7 @@ CONSTANTS
   Algo = "arange_int"
   ExtFilter = TRUE
   CoordDtype = "axis"
+  StopDefault = "last"
   FillBy = "reindex"
   LenBy = "sizes"
   RangeFrom = "index"
